@@ -10,6 +10,7 @@
 (*   trunc  the change manager's changeFileSize is 0 after open: the first append truncates what is there       *)
 (*   stored points in cache+WAL+TSM (durable)                                                                    *)
 (*   writers: Begin / Field (one LoadOrStore of CreateFieldIfNotExists) / Save (append change set) / Eng        *)
+(*   sq     save requests are served one at a time, first come first served (the single SaveWriter goroutine)  *)
 (*   maintenance: Drop (data + cleanupMeasurement) / DLog (Save(deletions)) / Close / C1 (rename tmp -> idx) /  *)
 (*                C2 (remove idxl) / Open (load + ApplyChanges) / O2 (rebuild from data when empty) / Crash      *)
 (*   QUIRK modelled with LogDeletes = FALSE: marshalFieldChanges drops DeleteMeasurement records (they have no   *)
@@ -32,13 +33,13 @@ CONSTANTS Mode,          \* "hist" | "input"
           SchemaNames,   \* input: pre-existing schemas
           VKs            \* input: values of Config.ValidateKeys
 
-VARIABLES up, mem, idx, idxl, trunc, stored, wr, mt, loadErr,   \* implementation
+VARIABLES up, mem, idx, idxl, trunc, stored, wr, sq, mt, loadErr,   \* implementation
           ack, touched,                                          \* contract
           nops, nextId, hist,                                    \* bookkeeping
           inp, out                                               \* input mode
 
-implVars == <<up, mem, idx, idxl, trunc, stored, wr, mt, loadErr>>
-vars == <<up, mem, idx, idxl, trunc, stored, wr, mt, loadErr, ack, touched, nops, nextId, hist, inp, out>>
+implVars == <<up, mem, idx, idxl, trunc, stored, wr, sq, mt, loadErr>>
+vars == <<up, mem, idx, idxl, trunc, stored, wr, sq, mt, loadErr, ack, touched, nops, nextId, hist, inp, out>>
 
 Types == {"float", "int"}
 None == "none"
@@ -126,7 +127,7 @@ Quiescent == up /\ AllIdle /\ MtIdle
 ObsP(m2, s2, a2, t2, i2, l2, e2) == [mem |-> m2, stored |-> s2, ack |-> a2, touched |-> t2, loadErr |-> e2]
 
 InitHist == /\ up = TRUE /\ mem = EmptySchema /\ idx = EmptySchema /\ idxl = <<>> /\ trunc = FALSE /\ stored = {}
-            /\ wr = [w \in Writers |-> IdleW] /\ mt = [pc |-> "idle", m |-> "", next |-> ""] /\ loadErr = FALSE
+            /\ wr = [w \in Writers |-> IdleW] /\ sq = <<>> /\ mt = [pc |-> "idle", m |-> "", next |-> ""] /\ loadErr = FALSE
             /\ ack = EmptySchema /\ touched = [m \in Meas |-> {}]
             /\ nops = 0 /\ nextId = 1 /\ hist = <<>> /\ inp = <<>> /\ out = <<>>
 
@@ -134,8 +135,8 @@ Begin(w, b) ==
     /\ up /\ MtIdle /\ wr[w].pc = "idle" /\ nops < MaxOps
     /\ wr' = [wr EXCEPT ![w] = [IdleW EXCEPT !.pc = "val", !.batch = b, !.id = IF UseIds THEN nextId ELSE 0]]
     /\ nops' = nops + 1 /\ nextId' = nextId + 1
-    /\ hist' = Append(hist, [a |-> "begin", w |-> w, batch |-> b, id |-> nextId])
-    /\ UNCHANGED <<up, mem, idx, idxl, trunc, stored, mt, loadErr, ack, touched, inp, out>>
+    /\ hist' = Append(hist, [a |-> "begin", w |-> w, batch |-> b, id |-> IF UseIds THEN nextId ELSE 0])
+    /\ UNCHANGED <<up, mem, idx, idxl, trunc, stored, sq, mt, loadErr, ack, touched, inp, out>>
 
 \* one CreateFieldIfNotExists (LoadOrStore) of writer w
 Field(w) ==
@@ -153,16 +154,18 @@ Field(w) ==
        IN /\ mem' = IF cur = None THEN [mem EXCEPT ![p.m][x.f] = x.t] ELSE mem
           /\ touched' = IF cur = None THEN [touched EXCEPT ![p.m] = @ \cup {<<x.f, x.t>>}] ELSE touched
           /\ wr' = [wr EXCEPT ![w] = s2]
-          /\ hist' = Append(hist, [a |-> "field", w |-> w])
+          /\ sq' = IF s2.pc = "save" THEN Append(sq, w) ELSE sq
+          /\ hist' = Append(hist, [a |-> "field", w |-> w, pc |-> s2.pc])
     /\ UNCHANGED <<up, idx, idxl, trunc, stored, mt, loadErr, ack, nops, nextId, inp, out>>
 
 AppendLog(cs) == /\ idxl' = IF trunc THEN <<cs>> ELSE Append(idxl, cs)
                  /\ trunc' = FALSE
 
 Save(w) ==
-    /\ up /\ wr[w].pc = "save"
+    /\ up /\ wr[w].pc = "save" /\ sq # <<>> /\ Head(sq) = w
     /\ AppendLog(wr[w].created)
     /\ wr' = [wr EXCEPT ![w].pc = "eng"]
+    /\ sq' = Tail(sq)
     /\ hist' = Append(hist, [a |-> "save", w |-> w])
     /\ UNCHANGED <<up, mem, idx, stored, mt, loadErr, ack, touched, nops, nextId, inp, out>>
 
@@ -180,7 +183,7 @@ Eng(w) ==
        IN /\ stored' = st2 /\ ack' = a2
           /\ hist' = Append(hist, [a |-> "ack", w |-> w, dropped |-> s.dropped, exp |-> ObsP(mem, st2, a2, touched, idx, idxl, loadErr)])
     /\ wr' = [wr EXCEPT ![w] = IdleW]
-    /\ UNCHANGED <<up, mem, idx, idxl, trunc, mt, loadErr, touched, nops, nextId, inp, out>>
+    /\ UNCHANGED <<up, mem, idx, idxl, trunc, sq, mt, loadErr, touched, nops, nextId, inp, out>>
 
 \* Shard.DeleteMeasurement: series data, index, cleanupMeasurement (in-memory delete) ...
 Drop(m) ==
@@ -191,7 +194,7 @@ Drop(m) ==
     /\ mt' = [pc |-> "dlog", m |-> m, next |-> ""]
     /\ nops' = nops + 1
     /\ hist' = Append(hist, [a |-> "drop", m |-> m])
-    /\ UNCHANGED <<up, idx, idxl, trunc, wr, loadErr, ack, touched, nextId, inp, out>>
+    /\ UNCHANGED <<up, idx, idxl, trunc, wr, sq, loadErr, ack, touched, nextId, inp, out>>
 \* ... then fieldset.Save(MeasurementsToFieldChangeDeletions)
 DLog ==
     /\ up /\ mt.pc = "dlog"
@@ -200,7 +203,7 @@ DLog ==
     /\ touched' = [touched EXCEPT ![mt.m] = {}]
     /\ mt' = [pc |-> "idle", m |-> "", next |-> ""]
     /\ hist' = Append(hist, [a |-> "dlog", m |-> mt.m, exp |-> ObsP(mem, stored, ack', touched', idx, idxl', loadErr)])
-    /\ UNCHANGED <<up, mem, idx, stored, wr, loadErr, nops, nextId, inp, out>>
+    /\ UNCHANGED <<up, mem, idx, stored, wr, sq, loadErr, nops, nextId, inp, out>>
 
 \* Engine.Close -> MeasurementFieldSet.Close: WriteToFile iff the change log exists
 Close ==
@@ -209,21 +212,21 @@ Close ==
     /\ mt' = IF idxl # <<>> THEN [pc |-> "c1", m |-> "", next |-> "closed"] ELSE [pc |-> "closed", m |-> "", next |-> ""]
     /\ nops' = nops + 1
     /\ hist' = Append(hist, [a |-> "close"])
-    /\ UNCHANGED <<mem, idx, idxl, trunc, stored, wr, loadErr, ack, touched, nextId, inp, out>>
+    /\ UNCHANGED <<mem, idx, idxl, trunc, stored, wr, sq, loadErr, ack, touched, nextId, inp, out>>
 \* WriteToFile: tmp file renamed over fields.idx (or fields.idx removed when there are no fields) ...
 C1 ==
     /\ mt.pc = "c1"
     /\ idx' = mem
     /\ mt' = [mt EXCEPT !.pc = "c2"]
     /\ hist' = Append(hist, [a |-> "c1"])
-    /\ UNCHANGED <<up, mem, idxl, trunc, stored, wr, loadErr, ack, touched, nops, nextId, inp, out>>
+    /\ UNCHANGED <<up, mem, idxl, trunc, stored, wr, sq, loadErr, ack, touched, nops, nextId, inp, out>>
 \* ... then the change log is removed
 C2 ==
     /\ mt.pc = "c2"
     /\ idxl' = <<>>
     /\ mt' = [pc |-> mt.next, m |-> "", next |-> ""]
     /\ hist' = Append(hist, [a |-> "c2"])
-    /\ UNCHANGED <<up, mem, idx, trunc, stored, wr, loadErr, ack, touched, nops, nextId, inp, out>>
+    /\ UNCHANGED <<up, mem, idx, trunc, stored, wr, sq, loadErr, ack, touched, nops, nextId, inp, out>>
 
 \* NewMeasurementFieldSet: load fields.idx, ApplyChanges; WriteToFile when there were change sets and no error
 Open ==
@@ -233,7 +236,7 @@ Open ==
        /\ mt' = IF r.err \/ idxl = <<>> THEN [pc |-> "o2", m |-> "", next |-> ""] ELSE [pc |-> "c1", m |-> "", next |-> "o2"]
     /\ trunc' = TRUE
     /\ hist' = Append(hist, [a |-> "open"])
-    /\ UNCHANGED <<up, idx, idxl, stored, wr, ack, touched, nops, nextId, inp, out>>
+    /\ UNCHANGED <<up, idx, idxl, stored, wr, sq, ack, touched, nops, nextId, inp, out>>
 \* LoadMetadataIndex: rebuild from the data iff the field set is empty (then WriteToFile); the shard is up
 O2 ==
     /\ mt.pc = "o2"
@@ -245,14 +248,14 @@ O2 ==
           /\ hist' = Append(hist, [a |-> "up", exp |-> ObsP(m2, stored, ack, touched, i2, l2, loadErr)])
     /\ up' = TRUE
     /\ mt' = [pc |-> "idle", m |-> "", next |-> ""]
-    /\ UNCHANGED <<trunc, stored, wr, loadErr, ack, touched, nops, nextId, inp, out>>
+    /\ UNCHANGED <<trunc, stored, wr, sq, loadErr, ack, touched, nops, nextId, inp, out>>
 
 \* process crash: volatile state is lost; every durable write already made stays (appends are O_SYNC);
 \* a torn append is the state before the Save / DLog step (an incomplete change set is ignored by the loader)
 Crash ==
     /\ nops < MaxOps /\ mt.pc # "crashed" /\ hist # <<>>
     /\ up' = FALSE /\ mem' = EmptySchema /\ loadErr' = FALSE
-    /\ wr' = [w \in Writers |-> IdleW]
+    /\ wr' = [w \in Writers |-> IdleW] /\ sq' = <<>>
     /\ mt' = [pc |-> "crashed", m |-> "", next |-> ""]
     /\ nops' = nops + 1
     /\ hist' = Append(hist, [a |-> "crash"])
@@ -263,7 +266,7 @@ InputStutter == Mode = "input" /\ UNCHANGED vars
 \* ------------------------------------------------------------------ input mode (C40)
 InitInput ==
     /\ up = TRUE /\ idx = EmptySchema /\ idxl = <<>> /\ trunc = FALSE /\ stored = {} /\ mem = EmptySchema
-    /\ wr = [w \in Writers |-> IdleW] /\ mt = [pc |-> "idle", m |-> "", next |-> ""] /\ loadErr = FALSE
+    /\ wr = [w \in Writers |-> IdleW] /\ sq = <<>> /\ mt = [pc |-> "idle", m |-> "", next |-> ""] /\ loadErr = FALSE
     /\ ack = EmptySchema /\ touched = [m \in Meas |-> {}] /\ nops = 0 /\ nextId = 1 /\ hist = <<>>
     /\ inp \in {[schema |-> n, vk |-> v, batch |-> b] : n \in SchemaNames, v \in VKs, b \in Batches(C40Points)}
     /\ LET r == ValBatch(SchemaOf(inp.schema), inp.batch, 1, inp.vk, [acc |-> <<>>, dropped |-> 0, created |-> <<>>, whys |-> <<>>])
@@ -298,5 +301,5 @@ C40Contract == Mode = "input" =>
     /\ \A p \in out.stored : out.mem[p.m][p.f] = p.t
 
 TypeOK == /\ up \in BOOLEAN /\ nops \in 0..MaxOps
-View == <<up, mem, idx, idxl, trunc, stored, wr, mt, loadErr, ack, touched, nops>>
+View == <<up, mem, idx, idxl, trunc, stored, wr, sq, mt, loadErr, ack, touched, nops>>
 =============================================================================
